@@ -24,6 +24,10 @@ Ref(kind, name) == [t |-> "ref", kind |-> kind, name |-> name]
 \* relative to the template it is *written* in, wherever it ends up being rendered
 Block(items) == [t |-> "block", items |-> items]
 NoOv == [has |-> FALSE, p |-> <<>>, items |-> <<>>]
+\* a computed include executed several times in one execution, each time with another name:  for n in names: [include n]
+Loop(kind, names) == [t |-> "loop", kind |-> kind, names |-> names]
+RECURSIVE LoopItems(_, _, _)
+LoopItems(kind, names, i) == IF i > Len(names) THEN <<>> ELSE <<Text("["), Ref(kind, names[i]), Text("]")>> \o LoopItems(kind, names, i + 1)
 Name(rooted, segs) == [rooted |-> rooted, segs |-> segs]
 
 RECURSIVE Clean(_, _)
@@ -54,6 +58,7 @@ Compile(loaders, path, items, fuel) ==
   ELSE LET it == Head(items) IN
        LET here ==
          IF it.t = "block" THEN Compile(loaders, path, it.items, fuel)
+         ELSE IF it.t = "loop" THEN R(<<>>, "", {})                  \* (computed names: nothing is fetched at compile time)
          ELSE IF it.t = "text" \/ it.kind \in {"lazy", "lazy_if"} THEN R(<<>>, "", {})
          ELSE LET p == Abs(path, it.name) IN
               LET f == FirstWith(loaders, p) IN
@@ -85,6 +90,7 @@ RenderItems(loaders, path, items, acc, fuel, ov) ==
   ELSE LET it == Head(items) IN
        LET step ==
          CASE it.t = "text" -> R(<<it.s>>, "", {})
+           [] it.t = "loop" -> RenderItems(loaders, path, LoopItems(it.kind, it.names, 1), R(<<>>, "", {}), fuel, NoOv)
            [] it.t = "block" -> IF ov.has THEN RenderItems(loaders, ov.p, ov.items, R(<<>>, "", {}), fuel, NoOv)
                                 ELSE RenderItems(loaders, path, it.items, R(<<>>, "", {}), fuel, NoOv)
            [] it.kind \in {"include", "include_if", "ssi_parsed"} ->
